@@ -129,7 +129,10 @@ def writerKeywords : List Str :=
    ['w','h','i','l','e'],
    ['t','h','r','o','w'],
    ['t','r','y'],
-   ['e','x','c','e','p','t']]
+   ['e','x','c','e','p','t'],
+   -- after 3c83e1d: the two lexer keywords the list used to lack
+   ['i','n'],
+   ['d','e','b','u','g','g','e','r']]
 
 def isIdStart (c : Char) : Bool :=
   (decide (65 ≤ c.toNat) && decide (c.toNat ≤ 90)) || (decide (97 ≤ c.toNat) && decide (c.toNat ≤ 122)) || c == '_'
@@ -308,6 +311,56 @@ def createObjectConfig (ti : TypeInfo) (fullName : Str) (ioe : Bool) (templates 
     emitConfigItem ti.name (shortName fullName parts) ioe templates (allAttrs attrs parts now)
   else none
 
+/-! ## Where the text is written: `ConfigObjectUtility::ComputeNewObjectConfigPath` / `EscapeName`
+(configobjectutility.cpp:35-66, 129-132; `Utility::EscapeString(name, "<>:\"/\\|?*", true)`, utility.cpp:1526-1568) -/
+
+/-- `HexEncode`'s digit (utility.cpp:1526-1532) -/
+def hexUpper (n : Nat) : Char := if n < 10 then Char.ofNat (48 + n) else Char.ofNat (55 + n)
+
+/-- the characters `EscapeName` replaces: the list given by `EscapeName` and `%` itself -/
+def nameSpecial (c : Char) : Bool :=
+  c == '<' || c == '>' || c == ':' || c == '"' || c == '/' || c == '\\' || c == '|' || c == '?' || c == '*' || c == '%'
+
+def escNameChar (c : Char) : Str :=
+  if nameSpecial c then ['%', hexUpper (c.toNat / 16 % 16), hexUpper (c.toNat % 16)] else [c]
+
+/-- `ConfigObjectUtility::EscapeName` -/
+def escapeName : Str → Str
+  | [] => []
+  | c :: r => escNameChar c ++ escapeName r
+
+def hexValUpper (c : Char) : Nat := if isDigit c then c.toNat - 48 else c.toNat - 55
+
+/-- `Utility::UnescapeString` (utility.cpp:1570-1591) on what `EscapeName` writes -/
+def unescapeName : Str → Str
+  | [] => []
+  | [c] => [c]
+  | [c, d] => [c, d]
+  | c :: x :: y :: r =>
+    if c = '%' then Char.ofNat (hexValUpper x * 16 + hexValUpper y) :: unescapeName r
+    else c :: unescapeName (x :: y :: r)
+
+def confDirPrefix (plural : Str) : Str := ['c','o','n','f','.','d','/'] ++ plural ++ ['/']
+def confSuffix : Str := ['.','c','o','n','f']
+
+/-- `ComputeNewObjectConfigPath` relative to the active stage of the `_api` package, for names that are not
+    truncated (every type but Comment and Downtime; those too while the escaped name is shorter than 123 bytes) -/
+def confPath (plural name : Str) : Str := confDirPrefix plural ++ (escapeName name ++ confSuffix)
+
+/-- `Utility::TruncateUsingHash<80+3+40>` (utility.hpp:173-192) with the SHA1 as an oracle: what the file's
+    base name may be for the escaped name `e`. -/
+def truncatedOk (e base : Str) : Bool :=
+  if e.length < 123 then base == e
+  else base.length == 123 && base.take 83 == e.take 80 ++ ['.','.','.'] &&
+    (base.drop 83).all (fun c => isDigit c || (decide (97 ≤ c.toNat) && decide (c.toNat ≤ 102)))
+
+/-- is `p` a path `ComputeNewObjectConfigPath` may prescribe: the escaped name in the type's directory, or (which
+    types truncate is the implementation's business: today Comment and Downtime) its truncated form. -/
+def pathExpected (plural name : Str) (p : Str) : Bool :=
+  p == confPath plural name ||
+    ((confDirPrefix plural).isPrefixOf p && confSuffix.isSuffixOf p &&
+      truncatedOk (escapeName name) ((p.drop (confDirPrefix plural).length).take (p.length - (confDirPrefix plural).length - confSuffix.length)))
+
 /-! ## Reading the text back: blanks and comments (config_lexer.ll:142-156) -/
 
 inductive WsMode where
@@ -414,9 +467,50 @@ def lexString : Str → Option (Str × Str)
 
 /-! ## Identifiers, keywords, numbers (config_lexer.ll:158-214) -/
 
-/-- keywords of the lexer: the writer's list plus `debugger` and `in`, which the writer does not know. -/
+/-- keywords of the lexer, transcribed from its rules in their order (config_lexer.ll:154-203; `!in` and the
+    operators cannot be confused with an identifier).  Since 3c83e1d (`in` and `debugger` added to
+    `ConfigWriter::GetKeywords`) every one of them is in the writer's list: `lexer_keywords_known_to_writer`. -/
 def lexerKeywords : List Str :=
-  ['d','e','b','u','g','g','e','r'] :: ['i','n'] :: writerKeywords
+  [['o','b','j','e','c','t'],
+   ['t','e','m','p','l','a','t','e'],
+   ['i','n','c','l','u','d','e'],
+   ['i','n','c','l','u','d','e','_','r','e','c','u','r','s','i','v','e'],
+   ['i','n','c','l','u','d','e','_','z','o','n','e','s'],
+   ['l','i','b','r','a','r','y'],
+   ['n','u','l','l'],
+   ['t','r','u','e'],
+   ['f','a','l','s','e'],
+   ['c','o','n','s','t'],
+   ['v','a','r'],
+   ['t','h','i','s'],
+   ['g','l','o','b','a','l','s'],
+   ['l','o','c','a','l','s'],
+   ['u','s','e'],
+   ['u','s','i','n','g'],
+   ['a','p','p','l','y'],
+   ['d','e','f','a','u','l','t'],
+   ['t','o'],
+   ['w','h','e','r','e'],
+   ['i','m','p','o','r','t'],
+   ['a','s','s','i','g','n'],
+   ['i','g','n','o','r','e'],
+   ['f','u','n','c','t','i','o','n'],
+   ['r','e','t','u','r','n'],
+   ['b','r','e','a','k'],
+   ['c','o','n','t','i','n','u','e'],
+   ['f','o','r'],
+   ['i','f'],
+   ['e','l','s','e'],
+   ['w','h','i','l','e'],
+   ['t','h','r','o','w'],
+   ['t','r','y'],
+   ['e','x','c','e','p','t'],
+   ['i','g','n','o','r','e','_','o','n','_','e','r','r','o','r'],
+   ['c','u','r','r','e','n','t','_','f','i','l','e','n','a','m','e'],
+   ['c','u','r','r','e','n','t','_','l','i','n','e'],
+   ['d','e','b','u','g','g','e','r'],
+   ['n','a','m','e','s','p','a','c','e'],
+   ['i','n']]
 
 /-- `[a-zA-Z_][a-zA-Z0-9_]*` at the head of the input (longest match). -/
 def spanIdent (bs : Str) : Option (Str × Str) :=
